@@ -160,7 +160,8 @@ class kFlowDecomp(pathmodel.AbstractPathModelDAG):
 
         # Check requirements on input graph:
         # Check flow conservation only if there are no edges to ignore
-        satisfies_flow_conservation = gu.check_flow_conservation(G, flow_attr)
+        # (checked on the internal graph: in node mode the flow values live on the edges of the expanded graph)
+        satisfies_flow_conservation = gu.check_flow_conservation(self.G_internal, flow_attr)
         if len(edges_to_ignore_internal) == 0 and not satisfies_flow_conservation:
             utils.logger.error(f"{__name__}: The graph G does not satisfy flow conservation or some edges have missing `flow_attr`. This is an error, unless you passed `edges_to_ignore` to include at least those edges with missing `flow_attr`.")
             raise ValueError("The graph G does not satisfy flow conservation or some edges have missing `flow_attr`. This is an error, unless you passed `edges_to_ignore` to include at least those edges with missing `flow_attr`.")
@@ -208,7 +209,7 @@ class kFlowDecomp(pathmodel.AbstractPathModelDAG):
         # (flow-safe paths are computed from all the flow values, so they are only valid if no edge is ignored)
         if self.optimize_with_flow_safe_paths and len(edges_to_ignore_internal) == 0 and satisfies_flow_conservation:
             start_time = time.perf_counter()
-            self.optimization_options["external_safe_paths"] = sfd.compute_flow_decomp_safe_paths(G=G, flow_attr=self.flow_attr)
+            self.optimization_options["external_safe_paths"] = sfd.compute_flow_decomp_safe_paths(G=self.G_internal, flow_attr=self.flow_attr)
             self.solve_statistics["flow_safe_paths_time"] = time.perf_counter() - start_time
             # If we optimize with flow safe paths, we need to disable optimizing with safe paths and sequences
             if self.optimization_options.get("optimize_with_safe_paths", False):
@@ -425,7 +426,7 @@ class kFlowDecomp(pathmodel.AbstractPathModelDAG):
                 self._solution = {
                     "_paths_internal": paths,
                     "paths": self.G_internal.get_condensed_paths(paths),
-                    "weights": self.path_weights_sol,
+                    "weights": weights,
                 }
             self.set_solved()
             self.solve_statistics = {}
